@@ -8,11 +8,12 @@ Require Import Verif.Gen.ForeignTables Verif.Foreign.NameEscape Verif.Foreign.Ta
 Local Open Scope string_scope.
 Local Open Scope list_scope.
 
-(* the loop of convertSpec over the definitions: safe name, skip what Find resolves, load, Add; then Sort *)
+(* the loop of convertSpec over the definitions, in the order of their names (utils.OrderedKeys, since 3a34129):
+   safe name, skip what Find resolves, load, Add; then Sort *)
 Lemma convert_shape_ok : convert_shape =
   ["for name := range spec.Components.Schemas { sName := getSyslSafeName(name) o.schemaNames[sName] = struct{}{} }";
    "o.types = TypeList{}";
-   "for name, ref := range spec.Components.Schemas { sName := getSyslSafeName(name) if _, found := o.types.Find(sName); !found { if ref.Value == nil { o.types.Add(NewStringAlias(sName)) } else { t, err := o.loadTypeSchema(sName, ref.Value) if err != nil { return """", err } o.types.Add(t) } } }";
+   "for _, name := range utils.OrderedKeys(spec.Components.Schemas) { ref := spec.Components.Schemas[name] sName := getSyslSafeName(name) if _, found := o.types.Find(sName); !found { if ref.Value == nil { o.types.Add(NewStringAlias(sName)) } else { t, err := o.loadTypeSchema(sName, ref.Value) if err != nil { return """", err } o.types.Add(t) } } }";
    "o.types.Sort()"].
 Proof. reflexivity. Qed.
 
@@ -135,14 +136,24 @@ Proof.
   apply import_skips_builtin_named. vm_compute. reflexivity.
 Qed.
 
-(* determinism is false outside doc_ok: an array definition whose items are a $ref to a definition named like a
-   builtin type prefix is written `sequence of _Integer` if Go visited Integer first and `sequence of Integer`
-   if not (loadTypeSchema -> typeAliasForSchema -> TypeList.Find on the types loaded so far) *)
-Theorem import_deterministic_refuted :
+(* Since 3a34129 the definitions are visited in the order of their names: listing them in another order changes
+   nothing, for EVERY document with distinct names (no doc_ok). Before, this was refuted: an array definition whose
+   items are a $ref to a definition named like a builtin type prefix was written `sequence of _Integer` if Go visited
+   Integer first and `sequence of Integer` if not (typeAliasForSchema -> TypeList.Find on the types loaded so far). *)
+Theorem import_any_order_current : forall doc doc',
+  Permutation doc doc' -> NoDup (map (fun d:odef => fst d) doc) -> import_c doc = import_c doc'.
+Proof. exact (import_any_order safe_name_cur is_builtin_c tname_c fname_c unesc_c map_type_c native_c). Qed.
+
+(* the former counterexample: both listings give the same output now; which one is decided by the NAMES: Integer
+   sorts before Order, so the array sees the loaded type (`_Integer`); an array named Alist sees the bare name *)
+Example former_nondeterminism_witness :
   let d1 := (of_string "Integer", OObject [mkp (of_string "id") (FPrim "string" "") false] []) in
   let d2 := (of_string "Order", OArray (FRef (of_string "Integer"))) in
-  import_c [d1; d2] <> import_c [d2; d1].
-Proof. vm_compute. discriminate. Qed.
+  let d3 := (of_string "Alist", OArray (FRef (of_string "Integer"))) in
+  import_c [d1; d2] = import_c [d2; d1]
+  /\ lookup (of_string "Order") (import_c [d2; d1]) = Some (TAlias (mkf "REF" 0 (of_string "_Integer") false true))
+  /\ lookup (of_string "Alist") (import_c [d1; d3]) = Some (TAlias (mkf "REF" 0 (of_string "Integer") false true)).
+Proof. vm_compute. repeat split; reflexivity. Qed.
 
 (* a reference to a definition whose name starts like a builtin type dangles: the definition is written `_Integer`,
    the reference `Integer` (nameOnlyType is not prefixed) *)
